@@ -225,6 +225,28 @@ pub fn plan(tier: Tier) -> Plan {
         jobs.push(unsub_job(Pipe::S(s.clone()).o1(o.clone()), form, len_t, devs));
       }
     }
+    // sources that hand their work to the scheduler (the handle returned by
+    // subscribe is what stops the task), and a deferred source whose factory
+    // builds a hot, timer-driven or task-driven observable: the subscription of
+    // what the factory returned is the subscription of the deferred observable
+    for s in [
+      Src::FromFuture(1),
+      Src::FromFutureResult(Ok(1)),
+      Src::FromFutureResult(Err(E::E1)),
+      Src::StreamCount(2),
+      Src::StreamResultCount(2),
+      Src::Defer(Box::new(Src::Hot(0))),
+      Src::Defer(Box::new(Src::Raw(0))),
+      Src::Defer(Box::new(Src::Interval(1))),
+      Src::Defer(Box::new(Src::FromFuture(1))),
+    ] {
+      n_pipes += 1;
+      jobs.push(unsub_job(Pipe::S(s.clone()), form, len_t, devs));
+      for o in [Op1::Map, Op1::Delay(1), Op1::Share] {
+        n_pipes += 1;
+        jobs.push(unsub_job(Pipe::S(s.clone()).o1(o), form, len, devs));
+      }
+    }
     // flattening over timer-driven inners is covered by Flat + interval below
     for t in &time_ops(false) {
       n_pipes += 1;
@@ -242,7 +264,7 @@ pub fn plan(tier: Tier) -> Plan {
       prop: "C02".into(),
       tier: tier_name(tier),
       engine: "E1 opseq".into(),
-      rule: "pipelines: every scheduler-using catalogue stage alone, combined (before and after) with every other catalogue entry, on either side of / after every two-input operator, over flattening, share and timer-driven sources, plus every synchronous entry; local and _threads forms. Every sequence up to the length bound over {input events, advance one tick, run the i-th ready task (another than the first costs a deviation, as does moving on while a task is ready), unsubscribe / drop the guard (once, at every position; for a few pipelines also a guard dropped by an unwinding scope)}; after the horizon everything that is still scheduled is run out. Oracle: the probe never grows after unsubscribe() returned; non-trivial = something was delivered".into(),
+      rule: "pipelines: every scheduler-using catalogue stage alone, combined (before and after) with every other catalogue entry, on either side of / after every two-input operator, over flattening, share, timer-driven sources, from_future / from_stream (and their _result twins) and defer over a hot, raw, interval or from_future source, plus every synchronous entry; local and _threads forms. Every sequence up to the length bound over {input events, advance one tick, run the i-th ready task (another than the first costs a deviation, as does moving on while a task is ready), unsubscribe / drop the guard (once, at every position; for a few pipelines also a guard dropped by an unwinding scope)}; after the horizon everything that is still scheduled is run out. Oracle: the probe never grows after unsubscribe() returned; non-trivial = something was delivered".into(),
       bounds: json!({"len_sync": len, "len_timed": len_t, "deviations": devs, "pipelines": n_pipes}),
       assumptions: vec!["task bodies are atomic; a callback racing with unsubscribe on another thread is E2's part".into()],
     },
